@@ -235,7 +235,8 @@ Fixpoint cty (G : tenv) (e : cexpr) : option sty :=
       | _ => None
       end
   | ECompr x r acc init cond step res =>
-      if bytes_eqb x s_t || bytes_eqb x acc || bytes_eqb x s_value || bytes_eqb x s_this then None else
+      if bytes_eqb x s_t || bytes_eqb x acc || bytes_eqb x s_value || bytes_eqb x s_this
+         || bytes_eqb acc s_value || bytes_eqb acc s_this || match glookup (te_vars G) acc with Some _ => true | None => false end then None else
       match cty G r, macro_of x acc init cond step res with
       | Some (SList te), Some m =>
           if mentions acc r then None else
